@@ -29,6 +29,7 @@ F = [
  fixed('C16', 'C16.4', 'listing:total:_print_line_object', '66cfb6e', 'the listing aborts on a statement that produces no bytes (a .zerountil whose address is already passed), so a valid program cannot be listed', '.byte 1,2,3,4 / .zerountil 1 / .byte 9 with -p', 'ERROR - internal: line_bytes is empty', 'listed with an empty byte column'),
  fixed('C04', 'C04.2', 'overlap:empty-lines-exempt', '12f58d7', 'a line that reserves no bytes is reported as overlapping when it sits inside another line\'s range, although it occupies no address', '.org 0 / .byte 1,2,3,4 / .org 2 / .zerountil 1 / .org 4 / .byte 9', 'overlap error', '01 02 03 04 09'),
  fixed('C19', 'C19.3', 'require:unmatched-line-exits', 'ab5b401', 'a #require line the requirement pattern does not match (misspelt operator, missing quote) is silently ignored', '#require "other-lang => 2.0.0" with an ISA named differently', 'assembles, exit 0', 'rejected'),
+ fixed('C18', 'C18.2', 'space:condition-operand:_lhs_expression:group1', '7d96373', 'the left operand of an #if / #elif comparison keeps the blanks its pattern absorbed, and operands naming labels are compared as text', '#define MODE fast / #if MODE  == fast (two blanks before ==)', 'false branch taken', 'same as with one blank'),
  fixed('C12', 'C12.3', 'width:upper', 'f5cdb79', 'overflow gate at byte, not bit, granularity', 't3 200 (3-bit field)', 'accepted', 'rejected'),
  fixed('C13', 'C13.5', 'register-guard:NumericEnumerationOperand', 'e15cca4', 'numeric enumeration operand accepts register names', 'set {numeric_enumeration, register a}: en a', 'error', 'register form'),
  fixed('C14', 'C14.1', 'loop:assembler.engine.Assembler.assemble_bytecode:addr <= (max_generated_address if self._binary_end', 'd576ef1', 'image loop stalls on a zero-length line', '.byte 1 / .fill 0, 0', 'hang', 'terminates'),
